@@ -1,8 +1,218 @@
 import CnlDriver.CS
-/-! `C16` driver table (stub). -/
-namespace Cnl.Drv
-open Cnl
+import CnlModel.Fraction
+import CnlSpec.Fraction
+/-!
+`C16` driver table: `cnl::fraction` over built-in integer components.
 
-def checkC16 (_toks : List String) (_res : String) : Option Verdict := none
+    C16 bin   <add|sub|mul|div> <fr(N,D)> <fr(N,D)> n1 d1 n2 d2 => fr(N',D'):n/d | UB
+    C16 cmp6  <fr> <fr> n1 d1 n2 d2            => six characters (== != < > <= >=), each 1, 0 or U
+    C16 un    <neg|pos|abs|reduce|canonical> <fr> n d => fr(N',D'):n/d | UB
+    C16 gcd   <fr> n d                          => T:v | UB
+    C16 hash  <fr> n d                          => u64:h | UB          (libstdc++ identity hash of the components)
+    C16 hasheq <fr> <fr> n1 d1 n2 d2            => two characters: a == b, hash(a) == hash(b)
+    C16 flt   <f32|f64|f80> <fr> n d            => f64:[-]m*2^e | f64:[-]0 | f64:[-]inf | f64:nan
+
+The oracle is exact rational arithmetic (`CnlSpec.Fraction.value`, core `Rat`) applied to the
+*implementation's* result; it never looks at the model.
+-/
+namespace Cnl.Drv
+open Cnl Cnl.Fraction Cnl.FractionSpec
+
+def parseFracTy (s : String) : Option (IntTy × IntTy) :=
+  match parseTy s with
+  | some (.fr (.int n) (.int d)) => some (n, d)
+  | _ => none
+
+def showFrac (f : Frac) : String :=
+  "fr(" ++ f.nt.toString ++ "," ++ f.dt.toString ++ "):" ++ toString f.n ++ "/" ++ toString f.d
+
+/-- parse `fr(N,D):n/d` -/
+def parseFracRes (s : String) : Option Frac :=
+  match s.splitOn ":" with
+  | [t, v] =>
+    match parseFracTy t, v.splitOn "/" with
+    | some (nt, dt), [n, d] => do let n ← n.toInt?; let d ← d.toInt?; pure ⟨nt, dt, n, d⟩
+    | _, _ => none
+  | _ => none
+
+def showFVal (ty : String) : FVal → String
+  | .fin s 0 _ => ty ++ ":" ++ (if s then "-" else "") ++ "0"
+  | .fin s m e => ty ++ ":" ++ (if s then "-" else "") ++ toString m ++ "*2^" ++ toString e
+  | .inf s => ty ++ ":" ++ (if s then "-" else "") ++ "inf"
+  | .nan => ty ++ ":nan"
+
+/-- parse `[-]m*2^e`, `[-]0` into a rational -/
+def parseFltRat (s : String) : Option Rat :=
+  match s.splitOn ":" with
+  | [_, v] =>
+    if v == "0" || v == "-0" then some 0
+    else match v.splitOn "*2^" with
+      | [m, e] => do
+        let m ← m.toInt?; let e ← e.toInt?
+        pure (if e ≥ 0 then (m : Rat) * ((2 : Rat) ^ e.toNat) else (m : Rat) / ((2 : Rat) ^ e.natAbs))
+      | _ => none
+  | _ => none
+
+def precOf : String → Option Nat
+  | "f32" => some 24 | "f64" => some 53 | "f80" => some 64 | _ => none
+
+def resChar (r : Res Bool) : Char :=
+  match r with
+  | .ok true => '1'
+  | .ok false => '0'
+  | _ => 'U'
+
+def cmpOps : List CmpOp := [.eq, .ne, .lt, .gt, .le, .ge]
+
+def val (a : Frac) : Rat := value a.n a.d
+
+/-- the gcd precondition and exact divisions of `reduce`/`canonical` (oracle-side guard):
+magnitudes representable in the common type, lowest terms representable in the result types -/
+def canonGuard (a : Frac) (positiveDen : Bool) : Bool :=
+  let C := if a.nt = a.dt then a.nt else usualArith a.nt a.dt
+  let NT := usualArith a.nt C
+  let DT := usualArith a.dt C
+  let g : Int := Int.gcd a.n a.d
+  let rn := a.n / g
+  let rd := a.d / g
+  a.d != 0 && a.nt.inRange a.n && a.dt.inRange a.d
+    && C.inRange a.n.natAbs && C.inRange a.d.natAbs
+    && NT.inRange a.n && NT.inRange g && DT.inRange a.d && DT.inRange g
+    && (!positiveDen || (NT.inRange (-rn) && DT.inRange (-rd) && NT.inRange rn && DT.inRange rd))
+
+def signedSmall (a : Frac) : Bool := a.nt.signed && a.dt.signed && a.nt.bits < 32 && a.dt.bits < 32
+
+/-- is `r` the fraction `want` in lowest terms (and with positive denominator if asked)? -/
+def lowestOk (want : Rat) (r : Frac) (positiveDen : Bool) : Bool :=
+  r.d != 0 && value r.n r.d == want && Int.gcd r.n r.d == 1 && (!positiveDen || (r.d > 0 && (r.n, r.d) == (want.num, (want.den : Int))))
+
+def checkC16 (toks : List String) (res : String) : Option Verdict :=
+  match toks with
+  | ["bin", op, ta, tb, n1, d1, n2, d2] => do
+    let (an, ad) ← parseFracTy ta; let (bn, bd) ← parseFracTy tb
+    let n1 ← n1.toInt?; let d1 ← d1.toInt?; let n2 ← n2.toInt?; let d2 ← d2.toInt?
+    let a : Frac := ⟨an, ad, n1, d1⟩; let b : Frac := ⟨bn, bd, n2, d2⟩
+    let (m, guard, want) ← match op with
+      | "add" => some (add a b, decide (AddGuard a.num a.den b.num b.den), val a + val b)
+      | "sub" => some (sub a b, decide (SubGuard a.num a.den b.num b.den), val a - val b)
+      | "mul" => some (mul a b, decide (MulGuard a.num a.den b.num b.den), val a * val b)
+      | "div" => some (div a b, decide (DivGuard a.num a.den b.num b.den) && n2 != 0, val a / val b)
+      | _ => none
+    let guard := guard && d1 != 0 && d2 != 0
+    let spec := if guard then
+        match parseFracRes res with
+        | some r => some (r.d != 0 && value r.n r.d == want)
+        | none => some false
+      else none
+    some { model := showRes showFrac m, spec := spec, branch := "bin/" ++ op ++ (if guard then "" else if m.isOk then "/unguarded" else "/ub"),
+           nontrivial := guard }
+  | ["cmp6", ta, tb, n1, d1, n2, d2] => do
+    let (an, ad) ← parseFracTy ta; let (bn, bd) ← parseFracTy tb
+    let n1 ← n1.toInt?; let d1 ← d1.toInt?; let n2 ← n2.toInt?; let d2 ← d2.toInt?
+    let a : Frac := ⟨an, ad, n1, d1⟩; let b : Frac := ⟨bn, bd, n2, d2⟩
+    let m := String.ofList (cmpOps.map (fun o => resChar (cmp o a b)))
+    let guard := decide (CmpGuard a.num a.den b.num b.den) && d1 != 0 && d2 != 0
+    let want := String.ofList (cmpOps.map (fun o => if cmpRat o (val a) (val b) then '1' else '0'))
+    let negs := (if d1 < 0 then "n" else "p") ++ (if d2 < 0 then "n" else "p")
+    some { model := m, spec := if guard then some (res == want) else none,
+           branch := "cmp6/" ++ (if guard then negs ++ (if val a == val b then "/equal" else "") else "unguarded"), nontrivial := guard }
+  | ["un", op, ta, n, d] => do
+    let (an, ad) ← parseFracTy ta
+    let n ← n.toInt?; let d ← d.toInt?
+    let a : Frac := ⟨an, ad, n, d⟩
+    let r := parseFracRes res
+    match op with
+    | "neg" =>
+      let guard := decide (NegFits a.num) && decide (WF a.den) && d != 0
+      some { model := showRes showFrac (neg a), spec := if guard then some (match r with | some r => r.d != 0 && value r.n r.d == -(val a) | none => false) else none,
+             branch := "un/neg" ++ (if guard then "" else "/unguarded"), nontrivial := guard }
+    | "pos" =>
+      let guard := decide (WF a.num) && decide (WF a.den) && decide ((promote an).InRange n) && decide ((promote ad).InRange d) && d != 0
+      some { model := showRes showFrac (pos a), spec := if guard then some (match r with | some r => r.d != 0 && value r.n r.d == val a | none => false) else none,
+             branch := "un/pos" ++ (if guard then "" else "/unguarded"), nontrivial := guard }
+    | "abs" =>
+      let guard := decide (WF a.num) && decide (WF a.den) && an.inRange (-n) && ad.inRange (-d) && d != 0
+      let want := if val a < 0 then -(val a) else val a
+      some { model := showRes showFrac (Fraction.abs a), spec := if guard then some (match r with | some r => r.d > 0 && r.n ≥ 0 && value r.n r.d == want | none => false) else none,
+             branch := "un/abs" ++ (if guard then "" else "/unguarded"), nontrivial := guard }
+    | "reduce" | "canonical" =>
+      let pd := op == "canonical"
+      let guard := canonGuard a pd
+      let m := if pd then canonical a else reduce a
+      let spec := if guard then some (match r with | some r => lowestOk (val a) r pd | none => false)
+        else match r with
+          | some r => if signedSmall a && d != 0 then some (lowestOk (val a) r pd) else none
+          | none => none
+      some { model := showRes showFrac m, spec := spec,
+             branch := "un/" ++ op ++ (if guard then (if d < 0 then "/negden" else "") else if m.isOk then "/unguarded" else "/ub"), nontrivial := guard }
+    | _ => none
+  | ["gcd", ta, n, d] => do
+    let (an, ad) ← parseFracTy ta
+    let n ← n.toInt?; let d ← d.toInt?
+    let a : Frac := ⟨an, ad, n, d⟩
+    let C := if an = ad then an else usualArith an ad
+    let guard := C.inRange n.natAbs && C.inRange d.natAbs
+    let want := showTV (C, (Int.gcd n d : Int))
+    some { model := showRes showTV (gcd a), spec := if guard then some (res == want) else none,
+           branch := "gcd" ++ (if guard then "" else "/unguarded"), nontrivial := guard }
+  | ["hash", ta, n, d] => do
+    let (an, ad) ← parseFracTy ta
+    let n ← n.toInt?; let d ← d.toInt?
+    let a : Frac := ⟨an, ad, n, d⟩
+    let m := hashWith 64 (stdHashInt 64) (stdHashInt 64) a
+    some { model := showRes (fun h => "u64:" ++ toString h) m, spec := none, branch := "hash" ++ (if m.isOk then "" else "/ub"), nontrivial := m.isOk }
+  | ["hasheq", ta, tb, n1, d1, n2, d2] => do
+    let (an, ad) ← parseFracTy ta; let (bn, bd) ← parseFracTy tb
+    let n1 ← n1.toInt?; let d1 ← d1.toInt?; let n2 ← n2.toInt?; let d2 ← d2.toInt?
+    let a : Frac := ⟨an, ad, n1, d1⟩; let b : Frac := ⟨bn, bd, n2, d2⟩
+    let e := cmp .eq a b
+    let ha := hashWith 64 (stdHashInt 64) (stdHashInt 64) a
+    let hb := hashWith 64 (stdHashInt 64) (stdHashInt 64) b
+    let hc : Char := match ha, hb with
+      | .ok x, .ok y => if x == y then '1' else '0'
+      | _, _ => 'U'
+    let m := String.ofList [resChar e, hc]
+    let guardEq := decide (CmpGuard a.num a.den b.num b.den) && d1 != 0 && d2 != 0
+    let guardH := canonGuard a true && canonGuard b true
+    let eqWant := val a == val b
+    let spec : Option Bool :=
+      if !guardEq then none
+      else match res.toList with
+        | [ec, hcI] =>
+          if ec != (if eqWant then '1' else '0') then some false
+          else if !eqWant then some true
+          else if hcI == '1' then some true
+          else if hcI == '0' then some false
+          else if guardH then some false else none
+        | _ => some false
+    some { model := m, spec := spec, branch := "hasheq/" ++ (if !guardEq then "unguarded" else if eqWant then "equal" else "different"),
+           nontrivial := guardEq && eqWant }
+  | ["flt", ft, ta, n, d] => do
+    let (an, ad) ← parseFracTy ta
+    let prec ← precOf ft
+    let n ← n.toInt?; let d ← d.toInt?
+    let a : Frac := ⟨an, ad, n, d⟩
+    let m := toFloat prec a
+    -- oracle: the result is within half a unit in the last place of the exact quotient
+    -- (exactness of the int→float conversions is part of the guard)
+    let exactOperands := n.natAbs < 2 ^ prec && d.natAbs < 2 ^ prec
+    let spec : Option Bool :=
+      if d == 0 || !exactOperands then none
+      else match parseFltRat res with
+        | some r =>
+          let q := val a
+          if q == 0 then some (r == 0)
+          else
+            -- ulp of the binade that holds |q|: 2^(floor(log2 |q|) - prec + 1)
+            let aq := if q < 0 then -q else q
+            let lg : Int := (Nat.log2 aq.num.natAbs : Int) - (Nat.log2 aq.den : Int)
+            let lg := if aq < (if lg ≥ 0 then (2 : Rat) ^ lg.toNat else 1 / (2 : Rat) ^ lg.natAbs) then lg - 1 else lg
+            let ue : Int := lg - (prec : Int) + 1
+            let ulp : Rat := if ue ≥ 0 then (2 : Rat) ^ ue.toNat else 1 / (2 : Rat) ^ ue.natAbs
+            let diff := if r - q < 0 then q - r else r - q
+            some (diff * 2 ≤ ulp)
+        | none => some false
+    some { model := showFVal ft m, spec := spec, branch := "flt/" ++ ft ++ (if d == 0 then "/zeroden" else ""), nontrivial := d != 0 }
+  | _ => none
 
 end Cnl.Drv
